@@ -64,19 +64,43 @@ impl Rule {
     pub fn validate_parameters(&self) -> Result<(), error::Token> {
         let mut invalid_parameters = match &self.parameters {
             None => vec![],
-            Some(parameters) => parameters
-                .iter()
-                .filter_map(
-                    |(name, opt_term)| {
-                        if opt_term.is_none() {
-                            Some(name)
-                        } else {
-                            None
-                        }
-                    },
-                )
-                .map(|name| name.to_string())
-                .collect::<Vec<_>>(),
+            Some(parameters) => {
+                let mut invalid = parameters
+                    .iter()
+                    .filter_map(
+                        |(name, opt_term)| {
+                            if opt_term.is_none() {
+                                Some(name)
+                            } else {
+                                None
+                            }
+                        },
+                    )
+                    .map(|name| name.to_string())
+                    .collect::<Vec<_>>();
+                // parameters that substitution would leave in place (map keys
+                // bound to a value that cannot be a key)
+                let mut remaining = vec![];
+                for term in self
+                    .head
+                    .terms
+                    .iter()
+                    .chain(self.body.iter().flat_map(|predicate| predicate.terms.iter()))
+                {
+                    term.remaining_parameters(parameters, &mut remaining);
+                }
+                for expression in &self.expressions {
+                    for op in &expression.ops {
+                        op.remaining_parameters(parameters, &mut remaining);
+                    }
+                }
+                for name in remaining {
+                    if !invalid.contains(&name) {
+                        invalid.push(name);
+                    }
+                }
+                invalid
+            }
         };
         let mut invalid_scope_parameters = match &self.scope_parameters {
             None => vec![],
@@ -258,28 +282,14 @@ impl Rule {
                 .head
                 .terms
                 .drain(..)
-                .map(|t| {
-                    if let Term::Parameter(name) = &t {
-                        if let Some(Some(term)) = parameters.get(name) {
-                            return term.clone();
-                        }
-                    }
-                    t
-                })
+                .map(|t| t.apply_parameters(&parameters))
                 .collect();
 
             for predicate in &mut self.body {
                 predicate.terms = predicate
                     .terms
                     .drain(..)
-                    .map(|t| {
-                        if let Term::Parameter(name) = &t {
-                            if let Some(Some(term)) = parameters.get(name) {
-                                return term.clone();
-                            }
-                        }
-                        t
-                    })
+                    .map(|t| t.apply_parameters(&parameters))
                     .collect();
             }
 
